@@ -610,6 +610,22 @@ def r4_retry(program, rep):
     rep.check(okc, "C09-R4", inst, "the number of attempts is bounded: the "
               "counter starts at 0, increases on every iteration and bounds "
               "the loop", construct="retry bound", node=w)
+    # the outcome of every fill is established before the loop is left or
+    # goes round: the map of what is still unloaded is bound anew on every
+    # path from the fill to the loop test / out of the loop
+    rebinds = [b_.node for b_ in T.binds if b_.var == UNL[1].var and
+               _inside(b_.node.ast, w) and b_.mode in ("assign", "aug")]
+    okv = bool(rebinds) and T.cfg.must_pass(
+        ffn, lambda n_: n_ in rebinds,
+        targets=[T.cfg.loop_head[id(w)], T.cfg.exit])
+    rep.check(okv, "C09-R4", inst, "after every fill the map of unloaded "
+              "cores is established anew (by the count or by the read-back) "
+              "before it decides between retrying, returning and raising",
+              construct="fill verified", node=ffs[0],
+              fail="a fill can be followed by leaving the retry loop without "
+                   "the map of unloaded cores having been re-established: "
+                   "the map from before that fill decides whether "
+                   "load_application raises, and names cores that did load")
     okf = fkw == {"app_id": APP, "wait": ("const", True)}
     rep.check(okf, "C09-R4", inst, "each attempt fills only what is still "
               "unloaded, under the caller's app id, leaving cores waiting",
